@@ -14,7 +14,7 @@ func init() {
 		ID: "C15", Level: "exploration", PanicClause: "C15.panic",
 		Cases: func(tier string) int {
 			if tier == "quick" {
-				return 4000
+				return 8000
 			}
 			return 450000
 		},
